@@ -93,6 +93,12 @@ type Engine struct {
 	hashConcLens map[int]bool
 	hashSymLens  map[int]bool
 	hashAlwaysUF bool
+	seqThreads   []*FuncVal
+	seqFinally   *FuncVal
+	trackCells   bool
+	allCells     []*Cell
+	allMaps      []*MapVal
+	allChans     []*ChanVal
 	fpExact      bool
 	fpIdeal      int
 
@@ -164,6 +170,8 @@ func (e *Engine) resetPath() {
 	e.hashConcLens = map[int]bool{}
 	e.hashSymLens = map[int]bool{}
 	e.fpExact = false
+	e.allCells, e.allMaps, e.allChans = nil, nil, nil
+	e.seqThreads, e.seqFinally = nil, nil
 }
 
 // assume adds a constraint to the path condition (no feasibility check).
@@ -175,6 +183,7 @@ func (e *Engine) assume(c *Term) {
 		return
 	}
 	e.pc = append(e.pc, c)
+	e.evGuard(c)
 }
 
 func (e *Engine) feasible(c *Term) SatResult {
@@ -191,10 +200,13 @@ func (e *Engine) branch(c *Term) bool {
 		d := e.prefix[idx]
 		e.decisions = append(e.decisions, d)
 		e.forced = append(e.forced, true)
+		e.evDecision(d)
 		if d {
 			e.pc = append(e.pc, c)
+			e.evGuard(c)
 		} else {
 			e.pc = append(e.pc, e.tb.Not(c))
+			e.evGuard(e.tb.Not(c))
 		}
 		return d
 	}
@@ -204,11 +216,13 @@ func (e *Engine) branch(c *Term) bool {
 		if p == c {
 			e.decisions = append(e.decisions, true)
 			e.forced = append(e.forced, true)
+			e.evDecision(true)
 			return true
 		}
 		if p == nc {
 			e.decisions = append(e.decisions, false)
 			e.forced = append(e.forced, true)
+			e.evDecision(false)
 			return false
 		}
 	}
@@ -230,16 +244,22 @@ func (e *Engine) branch(c *Term) bool {
 		e.decisions = append(e.decisions, true)
 		e.forced = append(e.forced, false)
 		e.pc = append(e.pc, c)
+		e.evDecision(true)
+		e.evGuard(c)
 		return true
 	case rt != ResUnsat:
 		e.decisions = append(e.decisions, true)
 		e.forced = append(e.forced, true)
 		e.pc = append(e.pc, c)
+		e.evDecision(true)
+		e.evGuard(c)
 		return true
 	case rf != ResUnsat:
 		e.decisions = append(e.decisions, false)
 		e.forced = append(e.forced, true)
 		e.pc = append(e.pc, e.tb.Not(c))
+		e.evDecision(false)
+		e.evGuard(e.tb.Not(c))
 		return false
 	}
 	panic(pathEnd{kind: "infeasible"})
@@ -288,6 +308,9 @@ func parseSMTInt(s string) *big.Int {
 }
 
 func (e *Engine) freshName(name string) string {
+	if e.ev != nil && e.ev.active && e.ev.cur != nil {
+		name = fmt.Sprintf("%s@T%d%s", name, e.ev.cur.id, e.ev.cur.spawnKey)
+	}
 	k := e.symCount[name]
 	e.symCount[name] = k + 1
 	return fmt.Sprintf("%s#%d", name, k)
